@@ -145,6 +145,31 @@ def mutations(rng, seed, rep, budget):
         if 0 <= c < n:
             muts.append(('trunc', c))
     vals32 = [0, 1, 16, nsec - 1, nsec, nsec + 5, 0x7fffffff, 0xffffffff]
+    # hybrid system area: MBR partition table, primary GPT header / entries, APM map, backup GPT header
+    sysarea_from = len(muts)
+    if seed[510:512] == b'\x55\xaa':
+        big = [0, 1, 2, 128, 129, 65536, 20000000, 0x7fffffff, 0xffffffff]
+        for off in (432, 440, 446, 454, 458, 462, 470, 474, 478, 494):
+            for v in (0, 0xffffffff, rng.getrandbits(32)):
+                muts.append(('set', off, struct.pack('<L', v)))
+        for hdr in (512, n - 512):
+            if seed[hdr:hdr + 8] == b'EFI PART':
+                for off in (8, 12, 16, 80, 84, 88):
+                    for v in big:
+                        muts.append(('set', hdr + off, struct.pack('<L', v)))
+                for off in (24, 32, 40, 48, 72):
+                    for v in (0, 1, nsec * 4, 2 ** 40, 2 ** 64 - 1):
+                        muts.append(('set', hdr + off, struct.pack('<Q', v)))
+                muts.append(('set', hdr, b'EFI PARX'))
+        for ent in range(1024, 1024 + 4 * 128, 128):
+            for off in (0, 32, 40):
+                muts.append(('set', ent + off, bytes(rng.randrange(256) for _ in range(8))))
+        for blk in range(2048, 8192, 2048):
+            if seed[blk:blk + 2] == b'PM':
+                for off in (4, 8, 12, 80, 84):
+                    for v in (0, 0xffffffff):
+                        muts.append(('set', blk + off, struct.pack('>L', v)))
+                muts.append(('set', blk, b'XX'))
     dirs = [(label, first, cnt) for label, first, cnt in rep.allocs if label.startswith('dir:')]
     dir_extents = [f for _, f, _ in dirs]
     # volume descriptors
@@ -271,37 +296,51 @@ def mutations(rng, seed, rep, budget):
     for _ in range(60):
         off = rng.randrange(16 * 2048, n)
         muts.append(('set', off, bytes(rng.randrange(256) for _ in range(rng.choice([1, 2, 4, 8])))))
-    rng.shuffle(muts)
-    # keep all truncations, sample the rest to the budget
-    return muts[:budget]
+    # the hybrid system-area mutations are few and each field matters: they are always kept; the rest is sampled
+    sysarea = [m for m in muts if m[0] == 'set' and m[1] < 16 * 2048 or (m[0] == 'set' and m[1] >= n - 512)]
+    rest = [m for m in muts if m not in set(sysarea)]
+    rng.shuffle(rest)
+    return sysarea[:budget // 2] + rest[:max(0, budget - len(sysarea[:budget // 2]))]
 
 
 def seed_images(ctx, tmpdir, count):
     out = []
     rng = ctx.rng
-    forced = [{'rr': '1.09'}, {'udf': '2.60'}, {'joliet': 3}, {'rr': '1.12', 'joliet': 3, 'udf': '2.60', 'xa': True}, {}, {'ilevel': 4}]
+    forced = [{'rr': '1.09'}, {'udf': None}, {'udf': '2.60'}, {'joliet': 3, 'udf': None}, {'rr': '1.12', 'joliet': 3, 'udf': '2.60', 'xa': True}, {'ilevel': 4, 'udf': None}]
     for i in range(count):
         cfg = gen.sample_cfg(rng, forced[i % len(forced)])
         c = histcheck.build_case(ctx, rng, cfg, rng.choice([6, 12, 20]), tmpdir)
         if c.path is None:
             continue
-        # half of the seeds get El Torito (+ isohybrid)
+        # half of the seeds get El Torito (+ isohybrid); the boot edits are ordinary ops, so a finding replays from cfg + ops
         if i % 2 == 1 and not cfg.get('udf'):
+            b = isoapi.isolinux_boot(2048)
+            boot = {'op': 'addfp', 'cid': 990, 'n': len(b), 'hex': b.hex(), 'iso': '/ISOLINUX.;1'}
+            if cfg.get('rr'):
+                boot['rr'] = 'isolinux'
+            if cfg.get('joliet'):
+                boot['joliet'] = '/isolinux'
+            extra = [boot, {'op': 'eltorito', 'boot': '/ISOLINUX.;1', 'kw': {'boot_load_size': 4}}]
+            if i % 4 == 1:
+                extra.append({'op': 'isohybrid', 'kw': {'efi': True, 'mac': i % 8 == 5} if i % 8 in (1, 5) else {}})
+                if i % 8 in (1, 5):
+                    extra.insert(2, {'op': 'eltorito', 'boot': '/ISOLINUX.;1', 'kw': {'efi': True, 'boot_load_size': 4}})
+                    if i % 8 == 5:
+                        extra.insert(3, {'op': 'eltorito', 'boot': '/ISOLINUX.;1', 'kw': {'efi': True, 'boot_load_size': 4}})
             try:
                 with isoapi.frozen_time():
-                    b = isoapi.isolinux_boot(2048)
-                    kw = {'iso_path': '/ISOLINUX.;1'}
-                    if cfg.get('rr'):
-                        kw['rr_name'] = 'isolinux'
-                    if cfg.get('joliet'):
-                        kw['joliet_path'] = '/isolinux'
-                    c.iso.add_fp(io.BytesIO(b), len(b), **kw)
-                    c.iso.add_eltorito('/ISOLINUX.;1', boot_load_size=4)
-                    if i % 4 == 1:
-                        c.iso.add_isohybrid(efi=(i % 8 == 1))
+                    for op in extra:
+                        res = c.session.apply(op)
+                        if res != 'ok':
+                            ctx.notes.append('seed boot setup: %s -> %s' % (op['op'], res))
+                            break
+                        c.session.record(op, res)
+                    c.ops = c.session.ops
+                    c.path = c.path + '.boot.iso'
                     c.iso.write(c.path)
             except Exception as e:  # noqa
-                ctx.notes.append('seed boot setup failed: %r' % e)
+                import traceback
+                ctx.notes.append('seed boot setup failed: %r %s' % (e, traceback.format_exc()[-300:]))
         rep = isoapi.read_image(ctx, c.path)
         out.append((c, rep))
     return out
